@@ -238,10 +238,10 @@ class WorkingHours:
 
     def _convert_to_timezone(self, dt: datetime, timezone_str: str) -> Optional[datetime]:
         """
-        Convert a naive UTC datetime to the specified timezone.
+        Convert a naive project datetime to the specified timezone.
 
         Args:
-            dt: Naive datetime (assumed to be UTC)
+            dt: Naive datetime in project time (the zone named in the project header, UTC if none)
             timezone_str: Timezone string like "Asia/Tokyo" or "America/New_York"
 
         Returns:
@@ -255,9 +255,17 @@ class WorkingHours:
                 # Python 3.9+ with zoneinfo
                 from datetime import timezone as dt_timezone
 
-                utc_dt = dt.replace(tzinfo=dt_timezone.utc)
                 tz = zoneinfo.ZoneInfo(timezone_str)
-                return utc_dt.astimezone(tz)
+                # Dates of the project are in the zone its header names: both the default hours
+                # of a resource without a zone and the local hours of one with a zone refer to it
+                project_tz = self.project.attributes.get("timezone") if self.project is not None else None
+                source: Any = dt_timezone.utc
+                if project_tz and project_tz not in ("UTC", "Etc/UTC"):
+                    try:
+                        source = zoneinfo.ZoneInfo(str(project_tz))
+                    except Exception:
+                        source = dt_timezone.utc
+                return dt.replace(tzinfo=source).astimezone(tz)
             elif HAS_PYTZ:
                 # Fallback to pytz
                 import pytz
